@@ -8,6 +8,7 @@ positions that follow from the layout (`recEntry`, Spec.lean) and `sliceSpec`.
 -/
 import TD.C02.Lemmas
 import TD.C02.Scan
+import TD.C02.ObjLemmas
 import TD.C01.Props
 
 namespace TD.C02
@@ -142,6 +143,65 @@ example : iterPositionsSt (encode exSul exRecs exLayout)
 
 example : (specPositionsS exRecs exLayout).map (fun c => (c.vrPos, c.lrshPos, c.type, c.ldLen))
     = [(80, 84, 0, 34), (120, 140, 5, 12), (156, 160, 127, 12), (156, 176, 3, 12)] := by decide +kernel
+
+/-! ### the index OBJECT through histories of enter / fetch / exit / re-enter / pickle / re-scan, two objects on one file -/
+
+/-- **Everything an index object answers is a function of the file bytes alone.**  For every file, every history of
+operations on one or two `LogicalRecordIndex` objects sharing one file object (enter, exit, re-enter, fetches, pickle
+round trip, re-scanning and sequential iteration on the same `FileRead`), whatever the cursor and the reader objects
+held before and whatever a scan leaves in them (`k`): the outputs are those of the state-free run `runPure2`, in which
+a fetch is `fetch b` on a fresh reader and the only memory is which entries list an object currently holds. -/
+theorem obj_history_pure (k : Bytes → RState → RState) (b : Bytes) (ops : List (Bool × Op)) (cur : Nat) (sA sB : IdxSt) :
+    runObj2 k b cur sA sB ops = runPure2 b (sA.entries, sA.entered) (sB.entries, sB.entered) ops :=
+  runObj2_pure k b ops cur sA sB
+
+/-- **Re-indexing gives the same list**: `_enter` leaves exactly the scan of the bytes in the index, whatever the
+object held before (entries of an earlier enter, of an unpickled index, anything) — one entry per logical record, not
+an accumulation. -/
+theorem reindex_pure (k : Bytes → RState → RState) (b : Bytes) (st : IdxSt) (P : List PosDesc)
+    (hP : iterPositions b = .ok P) :
+    (stepObj k b st .enter).1 = .entered P ∧ (stepObj k b st .enter).2.entries = P := by
+  unfold iterPositions at hP
+  unfold stepObj
+  cases h : iterPositionsSt b with
+  | mk l e =>
+    rw [h] at hP
+    cases e with
+    | none => simp only [Except.ok.injEq] at hP; subst hP; simp
+    | some x => simp at hP
+
+/-- The entries an object holds at any point of any history are either none or exactly the scan of the bytes. -/
+theorem obj_entries_good (k : Bytes → RState → RState) (b : Bytes) (st : IdxSt) (op : Op)
+    (h : GoodEntries b st.entries) : GoodEntries b (stepObj k b st op).2.entries := by
+  have h1 := (stepObj_pure k b st op).2
+  have h2 := stepPure_good b (st.entries, st.entered) op h
+  rw [← h1] at h2
+  exact h2
+
+/-- **On a conformant file every enter in every history reports one entry per record**: the n-th output of any
+history whose n-th operation is an enter (first enter, re-enter after exit, enter of an unpickled populated index,
+enter of the second object) is the list that follows from the layout, of length `recs.length`. -/
+theorem reindex_encode (k : Bytes → RState → RState) (sul : SULW) (recs : List LR) (ℓ : Layout)
+    (hs : sul.conformant = true) (hne : recs ≠ []) (hc : ℓ.conformant recs = true)
+    (ops : List (Bool × Op)) (cur : Nat) (sA sB : IdxSt) (n : Nat) (j : Bool) (hn : ops[n]? = some (j, .enter)) :
+    (runObj2 k (encode sul recs ℓ) cur sA sB ops)[n]? = some (.entered ((specPositionsS recs ℓ).map PosSpec.toDesc))
+    ∧ ((specPositionsS recs ℓ).map PosSpec.toDesc).length = recs.length := by
+  refine ⟨?_, by rw [List.length_map, positions_count recs ℓ hc]⟩
+  rw [obj_history_pure]
+  exact runPure2_enter _ _ (iterPositionsSt_encode sul recs ℓ hs hne hc) ops _ _ n j hn
+
+/-- enter, fetch, exit, re-enter, pickle, enter, fetch on the example file, second object interleaved: evaluated by
+the kernel on the stateful model -/
+example : (runObj2 (fun _ rs => rs) (encode exSul exRecs exLayout) 7 ⟨[], default, false⟩ ⟨[], default, false⟩
+      [(false, .enter), (false, .fetch 1 0 (-1)), (false, .exit), (false, .fetch 0 0 (-1)), (false, .enter),
+       (true, .enter), (false, .pickle), (false, .enter), (true, .fetch 3 2 5), (false, .fetch 3 2 5)]).map
+      (fun o => match o with
+        | .entered l => (l.length, [])
+        | .fetched f => (0, f.out)
+        | .error _ => (999, [])
+        | _ => (0, []))
+    = [(4, []), (0, [1, 2, 3]), (0, []), (999, []), (4, []), (4, []), (0, []), (4, []), (0, [255, 255, 255, 255, 255]),
+       (0, [255, 255, 255, 255, 255])] := by decide +kernel
 
 /-! ### the hypotheses are satisfiable, and the theorems bite on a concrete multi-segment record -/
 
